@@ -609,10 +609,16 @@ func c20ScenJSON(scen [][][2]string) [][][]string {
 
 // recordRun executes a scenario free-running with the hooks recording; returns false on a hang.
 func c20RecordRun(scen [][][2]string, seed int64, yield bool, watchdog time.Duration) bool {
+	return c20RecordRunOnce(scen, seed, yield, watchdog, nil)
+}
+
+// With seen != nil a run whose sequence of lock/access events was already recorded is not emitted again
+// (used for the operations whose program depends on Go's map iteration order: run them often, keep one
+// recording per order).
+func c20RecordRunOnce(scen [][][2]string, seed int64, yield bool, watchdog time.Duration, seen map[string]bool) bool {
 	r := c20NewRun(false, yield)
 	c20Cur.Store(r)
 	defer c20Cur.Store(nil)
-	vEmit(M{"ev": "Reset", "scen": c20ScenJSON(scen)})
 	done := r.start(scen, seed)
 	hung := false
 	select {
@@ -624,6 +630,19 @@ func c20RecordRun(scen [][][2]string, seed int64, yield bool, watchdog time.Dura
 	evs := r.events
 	r.events = nil
 	r.mu.Unlock()
+	if seen != nil && !hung {
+		var sig strings.Builder
+		for _, e := range evs {
+			if e["ev"] == "pre" {
+				fmt.Fprintf(&sig, "%v %v %v;", e["k"], e["c"], e["id"])
+			}
+		}
+		if seen[sig.String()] {
+			return true
+		}
+		seen[sig.String()] = true
+	}
+	vEmit(M{"ev": "Reset", "scen": c20ScenJSON(scen)})
 	for _, e := range evs {
 		vEmit(e)
 	}
@@ -654,13 +673,17 @@ func c20Record(t *testing.T) {
 		for _, n := range append(append(append([]string{}, c20DirOps...), c20SubOps...), c20ProgOnly...) {
 			list = append(list, c20Sess(n, "f1"))
 		}
-		for i := 0; i < 3; i++ { // like DirGetNode below (cacheSync of the root), then the re-lock
-			list = append(list, c20Sess("RootSetMode", "f1"))
-		}
 		// every descriptor state sequence of the write APIs
 		list = append(list, c20FdSessions("f1", vEnvInt("C20_FDDEPTH", 2))...)
-		for i := 0; i < 40; i++ { // cacheSync walks a Go map: collect the orders it really takes
-			list = append(list, c20Sess("DirGetNode", "f1"))
+		// cacheSync walks a Go map: collect the orders it really takes (the rarest one has probability 1/8 with
+		// 3 entries in one map group: 150 runs miss it with probability 2e-9; one recording per order is kept)
+		for _, n := range []string{"DirGetNode", "RootSetMode"} {
+			seen := map[string]bool{}
+			for i := 0; i < 150; i++ {
+				if !c20RecordRunOnce([][][2]string{c20Sess(n, "f1")}, 1, false, 5*time.Second, seen) {
+					return
+				}
+			}
 		}
 		list = append(list, c20Sess("Mv", "f2"))
 		// sequential composition in one goroutine: a writer session followed by attribute updates
